@@ -555,16 +555,31 @@ func (this *BlockCompressor) Compress() (int, uint64) {
 			sort.Sort(internal.NewFileCompare(files, true))
 		}
 
+		iNames := make([]string, nbFiles)
+		oNames := make([]string, nbFiles)
+
+		for i, f := range files {
+			iNames[i] = f.FullPath
+			oNames[i] = formattedOutName
+
+			if len(oNames[i]) == 0 {
+				oNames[i] = iNames[i] + ".knz"
+			} else if inputIsDir == true && specialOutput == false {
+				oNames[i] = formattedOutName + relativeToInputDir(formattedInName, iNames[i]) + ".knz"
+			}
+		}
+
+		if specialOutput == false {
+			if err := checkOutputNames(iNames, oNames); err != nil {
+				fmt.Println(err.Error())
+				return kanzi.ERR_OVERWRITE_FILE, 0
+			}
+		}
+
 		// Create one task per file
 		for i, f := range files {
-			iName := f.FullPath
-			oName := formattedOutName
-
-			if len(oName) == 0 {
-				oName = iName + ".knz"
-			} else if inputIsDir == true && specialOutput == false {
-				oName = formattedOutName + relativeToInputDir(formattedInName, iName) + ".knz"
-			}
+			iName := iNames[i]
+			oName := oNames[i]
 
 			taskCtx := make(map[string]any)
 
@@ -970,4 +985,33 @@ func relativeToInputDir(inputDir, name string) string {
 	}
 
 	return filepath.Base(name)
+}
+
+// checkOutputNames refuses a set of file tasks in which the output file of a
+// task is also the input or the output of another task: the result would
+// depend on the order of the tasks and the content of a file could be lost.
+func checkOutputNames(inputs, outputs []string) error {
+	seenIn := make(map[string]bool, len(inputs))
+
+	for _, n := range inputs {
+		seenIn[filepath.Clean(n)] = true
+	}
+
+	seenOut := make(map[string]bool, len(outputs))
+
+	for _, n := range outputs {
+		c := filepath.Clean(n)
+
+		if seenIn[c] == true {
+			return fmt.Errorf("The output file '%s' is also an input file", n)
+		}
+
+		if seenOut[c] == true {
+			return fmt.Errorf("Several input files share the output file '%s'", n)
+		}
+
+		seenOut[c] = true
+	}
+
+	return nil
 }
